@@ -286,5 +286,45 @@ impl<A: Ord + Clone> ArrL<A> {
 //@end
 }
 
+impl<A: MaybeNan> ArrL<A> {
+//@extract file=src/quantile/mod.rs impl=QuantileExt:ArrayBase fn=quantile_axis_skipnan_mut id=ArrL::quantile_axis_skipnan_mut tags=C14,C17,C01 body_tags=C14
+//@sig
+    fn quantile_axis_skipnan_mut<I>(&mut self, axis: Axis, q: N64, interpolate: &I) -> (r: Result<ArrS<A>, QuantileError>)
+    where
+        A::NotNan: Clone + Ord,
+        I: Interpolate<A::NotNan>,
+//@spec
+        requires lawful_ord::<A::NotNan>(), lawful_clone::<A::NotNan>(), old(self).wf(axis.0 as int),
+        ensures
+            !q.valid_q() ==> r == Err::<ArrS<A>, QuantileError>(QuantileError::InvalidQuantile(q)), // [C17,C14]
+            q.valid_q() && old(self).dims()[axis.0 as int] == 0 ==> r matches Err(QuantileError::EmptyInput), // [C17,C14]
+            // one value per lane: the missing value when the lane has no not-missing element, otherwise the plain quantile
+            // (strategy interpolation of the order statistics) of the not-missing elements of that lane
+            q.valid_q() && old(self).dims()[axis.0 as int] > 0 ==> (r matches Ok(res) && res.elems().len() == old(self).lanes(axis.0 as int).len()
+                && forall|j: int| 0 <= j < res.elems().len() ==> skipq_entry::<A, I>(old(self).lanes(axis.0 as int)[j], q, #[trigger] res.elems()[j])), // [C14,C01]
+//@replace_text
+(q >= 0.) && (q <= 1.)
+q.verif_in_unit()
+//@replace_text
+A::remove_nan_mut(lane)
+verif_remove_nan_mut::<A>(lane)
+//@closure 0
+|lane: Lane<A>| -> (v: A) requires q.valid_q() ensures skipq_entry::<A, I>(lane@, q, v)
+//@at after_let not_nan 0
+            proof { axiom_dims_1d(not_nan.dims()); }
+            let ghost nn0 = not_nan; let ghost fl = filter_not_nan(lane@);
+//@at after_call from_not_nan_opt 0
+            proof {
+                if fl.len() > 0 {
+                    // the compacted view holds exactly the not-missing values; the plain quantile permutes it and reads off its order statistics
+                    let arr = not_nan.lanes(0)[0];
+                    assert(perm(arr, nn0.lanes(0)[0]) && perm(nn0.lanes(0)[0], fl));
+                    assert(perm(arr, fl));
+                    assert(lane_entry::<A::NotNan, I>(arr, q, fl.len() as usize, __r.not_nan_spec()));
+                }
+            }
+//@end
+}
+
 } // verus!
 fn main() {}
